@@ -265,6 +265,17 @@ def make_fixture(env, fid, spec):
     return f
 
 
+def _existing(case, name):
+    """Bytes of the detail currently stored under ``name`` (None when the name is free)."""
+    cur = case.getDetails().get(name)
+    if cur is None:
+        return None
+    try:
+        return b"".join(cur.iter_bytes()).hex()
+    except Exception as e:  # noqa
+        return repr(e).encode().hex()
+
+
 def run_actions(env, case, actions, where):
     for a in actions:
         op = a[0]
@@ -282,14 +293,14 @@ def run_actions(env, case, actions, where):
             case.addCleanup(cleanup)
         elif op == "detail":
             name, pid, chunks, ctype = a[1], a[2], a[3], a[4]
-            env.log("detail", name, pid, name in case.getDetails(), "".join(chunks), ctype)
+            env.log("detail", name, pid, _existing(case, name), "".join(chunks), ctype)
             case.addDetail(name, _content(chunks, ctype))
         elif op == "lazy":
             from testtools.content import Content
             from testtools.content_type import ContentType
             name, pid, cell = a[1], a[2], a[3]
             env.cells.setdefault(cell, b"initial-" + cell.encode())
-            env.log("lazy", name, pid, name in case.getDetails(), cell)
+            env.log("lazy", name, pid, _existing(case, name), cell)
             case.addDetail(name, Content(ContentType("application", "octet-stream"),
                                          lambda cell=cell: [env.cells[cell]]))
         elif op == "setcell":
